@@ -306,7 +306,12 @@ def _shard(shard, col: Collector):
                     choices.pop()
                 col.case()
                 col.nontrivial(("bigbatch", cfg, n, tuple(choices)))
-                ctx, out = run_once(body_factory(cfg, n, False, seed), choices)
+                try:
+                    ctx, out = run_once(body_factory(cfg, n, False, seed), choices)
+                except Exception as e:
+                    if type(e).__name__ != "ReplayDivergence":
+                        raise
+                    out = [("C06:fewer-objective-calls-than-the-protocol-prescribes", "scripted failures for %d designs: %s" % (n, e))]
                 for key, msg in out:
                     col.violation(key + ":large-batch", "bigbatch", msg[:400], {"cfg": cfg, "n": n, "choices": choices, "seed": seed})
         if cfg == "unit":
@@ -317,7 +322,12 @@ def _shard(shard, col: Collector):
                     choices += [1 + (d + j) % 2 for j in range(k)] + [0]
                 col.case()
                 col.nontrivial(("manyfail", n, k))
-                ctx, out = run_once(body_factory(cfg, n, False, seed), choices)
+                try:
+                    ctx, out = run_once(body_factory(cfg, n, False, seed), choices)
+                except Exception as e:
+                    if type(e).__name__ != "ReplayDivergence":
+                        raise
+                    out = [("C06:fewer-objective-calls-than-the-protocol-prescribes", "%d designs failing %d times each: %s" % (n, k, e))]
                 for key, msg in out:
                     col.violation(key + ":many-failures", "bigbatch", msg[:400], {"cfg": cfg, "n": n, "choices": choices, "seed": seed})
         col.sample({"kind": "large batches with scripted failures", "config": cfg, "sizes": [31, 33, 65, 257]}, 1)
@@ -346,7 +356,12 @@ def _shard(shard, col: Collector):
                         choices = [t if i % 2 == 0 else 3 - t for i in range(j)] + [3]
                         col.case()
                         col.nontrivial(("zoo", name, scalar, j, t))
-                        ctx, out = run_once(body_factory("unit", 1, False, shard[1], False, scalar, make), choices)
+                        try:
+                            ctx, out = run_once(body_factory("unit", 1, False, shard[1], False, scalar, make), choices)
+                        except Exception as e:
+                            if type(e).__name__ != "ReplayDivergence":
+                                raise
+                            out = [("C06:fewer-objective-calls-than-the-protocol-prescribes", str(e))]
                         for key, msg in out:
                             col.violation(key + ":zoo", "zoo", "%s as answer of attempt %d (%s): %s" % (name, j + 1, "scalar" if scalar else "batch", msg),
                                           {"name": name, "scalar": scalar, "choices": choices, "seed": shard[1]})
